@@ -367,7 +367,7 @@ pub fn run(ctx: &mut Ctx) {
             ctx.count("inputs_targeted");
         }
     }
-    let n = if miri { 40 } else { ctx.budget(150_000, 8_000_000) };
+    let n = if miri { 40 } else { ctx.budget(150_000, 24_000_000) };
     for _ in 0..n {
         let f = random_file(&mut ctx.rng);
         check_case(ctx, &Case::new("random", f, 0, "n/a"));
